@@ -40,8 +40,8 @@ structure FMon where
   sentAfter : List (Nat × Nat × Why) := []
   bad : Option (Nat × Nat × Why) := none
 
-/-- Is `r` a returned synchronous message on the pair of `j`? -/
-def Cfg.obliges (cfg : Cfg) (j : Nat) (k : Nat) : Bool := (cfg.kind k).sync && cfg.pair k == cfg.pair j
+/-- Is `k` a synchronous message on the pair of `j`, other than `j` itself? -/
+def Cfg.obliges (cfg : Cfg) (j : Nat) (k : Nat) : Bool := (cfg.kind k).sync && cfg.pair k == cfg.pair j && k != j
 
 /-- C03 on a log: when the handler of `j` starts, the handler of every notification (or `initialize`) of
 the same pair whose sending call — or the notifying method it is a copy of — had returned before `j` was
